@@ -17,6 +17,8 @@ CONSTANTS
   DevFetchOutUnchecked = FALSE
   DevFetchLateAuth = FALSE
   DevRateKeyHeader = FALSE
+  DevRefundOnRefusal = FALSE
+  RateBad = FALSE
   DevRawNewlines = FALSE
 INVARIANTS C27_NoEffect
 VIEW View
